@@ -474,9 +474,18 @@ func c10ReplacedAt(get func() ast.Node) bool {
 
 // ---- end to end ----
 
-type c10Patch struct{ onEnter bool }
+type c10Patch struct {
+	onEnter bool
+	byType  bool // select the node by the static type the checker gave it (as type-driven user patches do)
+}
 
 func (p *c10Patch) patch(n *ast.Node) {
+	if p.byType {
+		t := (*n).Type()
+		if t == nil || (t.Kind() != reflect.Int && t.Kind() != reflect.String) {
+			return
+		}
+	}
 	switch x := (*n).(type) {
 	case *ast.IntegerNode:
 		if x.Value == 41 {
@@ -513,6 +522,7 @@ func sliceHoles() *slice {
 		gen.Slice("ft", gen.TStr), gen.Slice("f", gen.TStr),
 		gen.Call("Id", gen.TInt, gen.TInt), gen.Call("Add", gen.TInt, gen.TInt, gen.TInt), gen.Call("Cat", gen.TStr, gen.TStr, gen.TStr),
 		gen.Method(gen.TObj, "Plus", gen.TInt, false, gen.TInt),
+		gen.Call("TakesAny", gen.TAny, gen.TInt), gen.Call("Pack", gen.TAny, gen.TInt), gen.Call("Pack", gen.TAny, gen.TStr, gen.TInt), gen.Call("Second", gen.TAny, gen.TStr, gen.TInt), gen.Method(gen.TObj, "Pick", gen.TAny, false, gen.TInt, gen.TStr),
 		gen.Builtin("map", gen.TIntArr, gen.TInt, gen.TIntArr), gen.Builtin("all", gen.TIntArr, T, T), gen.Builtin("filter", gen.TIntArr, T, gen.TIntArr), gen.Builtin("count", gen.TIntArr, T, gen.TInt),
 		gen.Cond(gen.TInt), gen.Cond(gen.TStr),
 		gen.ArrAs(gen.TIntArr, gen.TInt, gen.TInt), gen.ArrAs(gen.TIntArr, gen.TInt), gen.MapLit([]string{"a"}, gen.TInt), gen.MapLit([]string{"a", "b"}, gen.TStr, gen.TInt),
@@ -574,9 +584,13 @@ func c10EndToEnd(r *report.Run) (contexts, runs int64) {
 								Detail: map[string]interface{}{"source": src, "patched_error": fmt.Sprint(eg2), "direct_error": fmt.Sprint(e2)}})
 						}
 					}
-					for _, onEnter := range []bool{false, true} {
-						got, errG := lib.Compile(src, m, expr.Patch(&c10Patch{onEnter: onEnter}))
-						when := map[bool]string{false: "exit", true: "enter"}[onEnter]
+					for _, variant := range []int{0, 1, 2} {
+						onEnter := variant == 1
+						if variant == 2 && m.Env == "noenv" {
+							continue // without Env the checker does not type the arguments of calls: nothing to select by
+						}
+						got, errG := lib.Compile(src, m, expr.Patch(&c10Patch{onEnter: onEnter, byType: variant == 2}))
+						when := []string{"exit", "enter", "exit-selected-by-type"}[variant]
 						if (errW == nil) != (errG == nil) {
 							if _, isP := errG.(*lib.PanicError); isP || errW == nil {
 								r.Report(report.Violation{Sub: "patch-on-" + when + "@" + m.String(), Kind: "compile-differs", Witness: c10Context(e), Order: base + contexts,
